@@ -43,8 +43,9 @@ ASSUMPTIONS = [
     "from that state, the fake actions applicable in it (they write fake fluents only); every other compiled action resets "
     "every fake fluent",
     "known findings inherited from the single-agent helpers (owned by C06/C07) are attributed by cause predicates: D-C06a "
-    "(statically conflicting selected effect dropped from the variant), D-C06b (conditional increase/decrease split over "
-    "overlapping disjuncts), D-C07 (variants without effects are dropped)",
+    "(statically conflicting selected effect: as found dropped from the variant, which is then unsound; with C06/C07's repair "
+    "the whole variant is dropped, which loses the states where the syntactically different values coincide), D-C06b "
+    "(conditional increase/decrease split over overlapping disjuncts), D-C07 (variants without effects are dropped)",
 ]
 MODELLED = [
     "modelled by hand (tied by correspondence): MAConditionalEffectsRemover._compile, ConditionalEffectsRemover."
@@ -437,11 +438,15 @@ def compare(m, a):
     if af == rp:
         return a[1] == af
     if a[1] == af:
-        _modes_seen.add("as-found")
+        mode = "as-found"
     elif a[1] == rp:
-        _modes_seen.add("repaired")
+        mode = "repaired"
     else:
         return False
+    if mode not in _modes_seen:
+        _modes_seen.add(mode)
+        print(f"C37: ConditionalEffectsRemover._create_unconditional_actions matches the '{mode}' reading of its "
+              f"`except UPConflictingEffectsException` clause", flush=True)
     return len(_modes_seen) == 1
 
 
@@ -633,7 +638,10 @@ def _oracle(payload):
                         if any(s[k] != ("b", False) for k in fake_keys):
                             return f"fake fluents not reset by variant {v[1]} of {where}"
                     if orig is not None and not app:
-                        tag = "D-C07 " if fired(act[4][1:], view) == [] else ""
+                        # nothing fired: the dropped effect-less variant (D-C07); otherwise, for conditional effects, the
+                        # static-conflict family (with C06/C07's repair the whole variant is dropped although the
+                        # syntactically different values coincide in this state); attribution needs the cause predicate too
+                        tag = "D-C07 " if fired(act[4][1:], view) == [] else ("D-C06a " if which == "cond" else "")
                         r = fail(f"{tag}completeness: original {where} applicable, no variant is")
                         if r:
                             return r
